@@ -139,7 +139,10 @@ def run(ctx):
         for x in walk_no_nested(roc2.node):
             if isinstance(x, ast.Compare) and any(isinstance(o, (ast.In, ast.NotIn)) for o in x.ops) and \
                     "invalid_original_rows" in norm(x.comparators[0]):
-                ctx.check(isinstance(x.left, ast.Attribute) and x.left.attr == "original_index", "R10.5", roc2.qualname, x, loc(roc2, x),
+                from sa.dataflow import ReachingDefs as _RD105, depends_on as _dep105
+                by_index = (isinstance(x.left, ast.Attribute) and x.left.attr == "original_index") or _dep105(
+                    _RD105(roc2), x.left, x, lambda y: isinstance(y, ast.Attribute) and y.attr == "original_index")
+                ctx.check(by_index, "R10.5", roc2.qualname, x, loc(roc2, x),
                           "the failed-row skip tests `%s` instead of the row's original_index: a valid Onset row is dropped (its "
                           "Offset is then reported as unmatched) or a broken row is not skipped" % norm(x.left),
                           desc="failed-row skip uses original_index")
@@ -225,6 +228,13 @@ def run(ctx):
                 any(isinstance(x, ast.Compare) and isinstance(x.ops[0], ast.NotEq) and isinstance(x.left, ast.Name)
                     and x.left.id in loopvars and norm(x.left) == norm(x.comparators[0]) for x in ast.walk(t))
         g = v8.guard_for(c, nan_test)
+        if g is not None:
+            t_ = g[0].ast
+            neg = False
+            while isinstance(t_, ast.UnaryOp) and isinstance(t_.op, ast.Not):
+                neg, t_ = not neg, t_.operand
+            nan_label = not neg         # the edge a NaN onset takes at this test
+            g = (g[0], False) if g[1] is not nan_label else None
         ctx.check(g is not None and g[1] is False, "R10.8", ido.qualname, c.ast, loc(ido, c.ast),
                   "a NaN onset reaches the tolerance comparison, which is false for NaN: the row without a time is appended to the "
                   "current time point, so its Onset/Offset markers act at the last timed row", desc="NaN onsets skipped before the comparison")
